@@ -235,3 +235,200 @@ func indexProvenanceSSA(w *World, fn *ssa.Function, v ssa.Value, depth int) bool
 	}
 	return false
 }
+
+// c11MemberDerefSSA (C11.R4, member part): fields of a struct AND of a pointer to
+// a struct are reachable. The function that looks fields up by name is
+// evaluated abstractly for the two classes of owner value: on every path that
+// is consistent with the class (its tests of the owner's reflect kind evaluated
+// for the class; other tests left open) and that ends the member lookup, the
+// receiver of FieldByName has kind Struct; no consistent path gives up before
+// looking the field up.
+func c11MemberDerefSSA(r *Run, rule string, navID *FuncInfo) bool {
+	w := r.W
+	w.SSA()
+	fn := w.SSAFunc(navID)
+	m := w.coreModel()
+	if fn == nil || m.expr == nil {
+		return false
+	}
+	paths, ok := walkPathsUnrolled(fn, nil, nil, 50000)
+	if !ok {
+		return false
+	}
+	name := navID.Name()
+	classes := []lenClass{{name: "struct", kind: kStruct}, {name: "pointer to struct", kind: kPtr, elem: kStruct}}
+	allOK, decided := true, false
+	for _, c := range classes {
+		nReach, bad := 0, ""
+		var badAt token.Pos
+		for _, p := range paths {
+			// the owner: the value of evaluating node.Callee
+			var owner ssa.Value
+			for _, ev := range p.events {
+				if call, ok := ev.(*ssa.Call); ok && call.Call.StaticCallee() == m.expr && len(call.Call.Args) == 2 {
+					if _, isCallee := isFieldLoadOf(p.resolve(stripIface(p.resolve(call.Call.Args[1]))), astPath, "Identifier", "Callee"); isCallee {
+						for _, ref := range p.referrers(call) {
+							if ex, ok := ref.(*ssa.Extract); ok && ex.Index == 0 {
+								owner = ex
+							}
+						}
+					}
+				}
+			}
+			if owner == nil {
+				continue
+			}
+			consistent := true
+			for _, d := range p.decisions {
+				if x, op, ok := isNilCompare(p, d.cond); ok {
+					xv := p.resolve(x)
+					if xv == owner || p.resolve(stripIface(xv)) == owner {
+						if d.truth == (op == token.EQL) {
+							consistent = false // the owner of these classes is not nil
+						}
+					}
+					continue
+				}
+				bo, ok := d.cond.(*ssa.BinOp)
+				if !ok || (bo.Op != token.EQL && bo.Op != token.NEQ) {
+					continue
+				}
+				a, b := p.resolve(bo.X), p.resolve(bo.Y)
+				if recv, _, isKind := reflectValueCall(a, "Kind"); isKind {
+					if k, isC := constKind(b); isC {
+						if kk := lenKindOf(p, recv, owner, c); kk >= 0 && ((kk == k) == (bo.Op == token.EQL)) != d.truth {
+							consistent = false
+						}
+					}
+				}
+			}
+			if !consistent {
+				continue
+			}
+			looked := false
+			for _, ev := range p.events {
+				call, ok := ev.(*ssa.Call)
+				if !ok {
+					continue
+				}
+				if recv, _, isF := reflectValueCall(call, "FieldByName"); isF {
+					looked = true
+					if kk := lenKindOf(p, recv, owner, c); kk != kStruct {
+						bad, badAt = "FieldByName is reached on a value that is not a struct for this class (the pointer is not dereferenced first)", call.Pos()
+					} else {
+						nReach++
+					}
+				}
+			}
+			if !looked && p.end == "return" && len(p.results) == 2 && !p.knownNil(p.results[1]) {
+				// gave up with an error although the owner is (a pointer to) a struct -- unless the error is that of evaluating the owner
+				if ex, ok := p.resolve(p.results[1]).(*ssa.Extract); ok {
+					if call, ok := ex.Tuple.(*ssa.Call); ok && call.Call.StaticCallee() == m.expr {
+						continue
+					}
+				}
+				bad, badAt = "the lookup gives up for this class before looking the field up", p.ret.Pos()
+			}
+		}
+		if nReach > 0 || bad != "" {
+			decided = true
+		}
+		con := "fields of a " + c.name + " are reachable"
+		switch {
+		case bad != "":
+			allOK = false
+			r.Bad(rule, name, "pointer dereference before the struct test", w.Pos(badAt), "fields of a pointer to a struct must be reachable: "+bad+" ("+c.name+")")
+		case nReach == 0:
+			allOK = false
+			r.Bad(rule, name, "pointer dereference before the struct test", w.Pos(fn.Pos()), "no path looks a field up for a "+c.name)
+		default:
+			r.Ok(rule, name, con, w.Pos(fn.Pos()), "on every consistent path FieldByName is reached on a value of kind Struct")
+		}
+	}
+	_ = allOK
+	return decided
+}
+
+// keyProvenanceSSA: v is reflect.ValueOf(<parameter of fn>), possibly converted to the key type,
+// possibly obtained through a validating helper of the module that returns exactly that on every
+// return that does not report an error.
+func keyProvenanceSSA(w *World, fn *ssa.Function, v ssa.Value, depth int) bool {
+	if depth > 4 {
+		return false
+	}
+	unwrapParam := func(a ssa.Value) bool {
+		for i := 0; i < 3; i++ {
+			switch x := a.(type) {
+			case *ssa.MakeInterface:
+				a = x.X
+				continue
+			case *ssa.ChangeInterface:
+				a = x.X
+				continue
+			case *ssa.UnOp:
+				if sv := cellValue(x); sv != nil {
+					a = sv
+					continue
+				}
+			}
+			break
+		}
+		_, isP := a.(*ssa.Parameter)
+		return isP
+	}
+	switch x := v.(type) {
+	case *ssa.Phi:
+		for _, e := range x.Edges {
+			if !keyProvenanceSSA(w, fn, e, depth+1) {
+				return false
+			}
+		}
+		return len(x.Edges) > 0
+	case *ssa.Call:
+		if args, ok := reflectFunc(x, "ValueOf"); ok && len(args) == 1 {
+			return unwrapParam(args[0])
+		}
+		if recv, _, ok := reflectValueCall(x, "Convert"); ok {
+			return keyProvenanceSSA(w, fn, recv, depth+1)
+		}
+	case *ssa.Extract:
+		call, ok := x.Tuple.(*ssa.Call)
+		if !ok {
+			return false
+		}
+		g := call.Call.StaticCallee()
+		if g == nil || !inModule(g) || len(g.Blocks) == 0 || len(g.Params) != len(call.Call.Args) {
+			return false
+		}
+		n := 0
+		for _, b := range g.Blocks {
+			ret, isRet := b.Instrs[len(b.Instrs)-1].(*ssa.Return)
+			if !isRet || x.Index >= len(ret.Results) {
+				continue
+			}
+			failing := false
+			for i, rv := range ret.Results {
+				if i != x.Index && isErrorType(rv.Type()) && definitelyNonNil(rv) {
+					failing = true
+				}
+			}
+			if failing {
+				continue
+			}
+			n++
+			if !keyProvenanceSSA(w, g, ret.Results[x.Index], depth+1) {
+				return false
+			}
+		}
+		if n == 0 {
+			return false
+		}
+		// the helper's interface-typed parameter is fed by a parameter of the caller
+		for i, prm := range g.Params {
+			if types.IsInterface(prm.Type()) && !namedIs(prm.Type(), "reflect", "Type") && unwrapParam(call.Call.Args[i]) {
+				return true
+			}
+		}
+	}
+	return false
+}
